@@ -313,3 +313,103 @@ contract(RX + 'expand_or_falsify_vrle', props=['C03'],
          ensures=[('ranges-contain-the-new-runs-and-only-widen', 'expanded_ok(rle, vrle, result, variableLength)'),
                   ('falsified-only-when-inconsistent',
                    'falsified_only_when_inconsistent(rle, vrle, result, variableLength)')])
+
+
+# ---------------------------------------------------------------------------
+# C13: pattern pruning keeps the most frequent patterns and the result lists aligned
+# ---------------------------------------------------------------------------
+
+def _freqs(it, name):
+    k = it.path.choose([True] * 5)
+    out = []
+    for i in range(k):
+        n = it.fresh(T.nat, '%s%d' % (name, i))
+        out.append(n)
+    return out
+
+
+def _pruner_view(it):
+    rc = extract.load_module('tdda/rexpy/rexpy.py').classes['Extractor']
+    o = SObj('Extractor', {'max_patterns': it.fresh(T.union(T.none, T.const(0), T.const(1), T.const(2), T.const(3)),
+                                                   'max_patterns'),
+                           'min_strings_per_pattern': it.fresh(T.union(T.const(1), T.const(2), T.nat), 'min_strings')},
+             label='self')
+    o.repo_class = rc
+    return o
+
+
+@specfn
+def pruning_ok(it, selfobj, freqs, result):
+    """result = indices to delete.  With max_patterns = M: at most M survive the count rule and no
+    deleted pattern is strictly more frequent than a kept one; with min_strings_per_pattern = m > 1
+    every pattern with fewer than m strings is deleted; nothing else is deleted."""
+    if not isinstance(result, (set, frozenset)):
+        return False
+    n = len(freqs)
+    if not all(isinstance(i, int) and 0 <= i < n for i in result):
+        return False
+    M = selfobj.attrs['max_patterns']
+    m = selfobj.attrs['min_strings_per_pattern']
+    zs = []
+    fz = [num_z(f)[0] for f in freqs]
+    mz = num_z(m)[0]
+    low = [z3.And(mz > 1, fz[i] < mz) for i in range(n)]           # deleted by the frequency rule
+    by_count = [i for i in result]                                  # candidates deleted by the count rule
+    kept = [i for i in range(n) if i not in result]
+    # every low-frequency pattern is deleted
+    for i in kept:
+        zs.append(z3.Not(low[i]))
+    if M is None or n <= M:
+        # no count rule in force: only low-frequency patterns may be deleted
+        for i in result:
+            zs.append(low[i])
+    else:
+        # count rule: a deleted pattern that is not low-frequency is no more frequent than any kept one,
+        # and at most M patterns survive
+        if len(kept) > M:
+            return False
+        for i in result:
+            for k in kept:
+                zs.append(z3.Or(low[i], fz[i] <= fz[k]))
+        # exactly the n - M least frequent are removed by the count rule: anything deleted beyond that is low
+        if len(result) > n - M:
+            extra_low = z3.Sum([z3.If(low[i], 1, 0) for i in result])
+            zs.append(extra_low >= len(result) - (n - M))
+    return SBool(z3.And(*zs)) if zs else True
+
+
+contract(RX + 'Extractor.find_bad_patterns', props=['C13'],
+         params=dict(freqs=T.custom(_freqs)), self_view=_pruner_view,
+         spec_env=dict(ENV, pruning_ok=pruning_ok), result=T.opaque,
+         ensures=[('keeps-the-most-frequent-and-drops-the-rare', 'pruning_ok(self, freqs, result)')])
+
+
+def _summary_view(it):
+    rc = extract.load_module('tdda/rexpy/rexpy.py').classes['ResultsSummary']
+    n = 3
+    rex = [it.fresh_str('rex%d' % i) for i in range(n)]
+    vr = [it.fresh_opaque('vrle%d' % i) for i in range(n)]
+    rf = [it.fresh_opaque('refrag%d' % i) for i in range(n)]
+    o = SObj('ResultsSummary', {'rex': list(rex), 'refined_vrles': list(vr), 'refrags': list(rf),
+                                'extractor': SObj('Extractor', {'__open__': False})}, label='self')
+    o.repo_class = rc
+    it.ghost['orig'] = (rex, vr, rf)
+    return o
+
+
+@specfn
+def removed_ok(it, selfobj, indexes):
+    rex, vr, rf = it.ghost['orig']
+    keep = [i for i in range(len(rex)) if i not in indexes]
+    a = selfobj.attrs
+    return (len(a['rex']) == len(keep) and all(x is rex[i] for x, i in zip(a['rex'], keep))
+            and len(a['refined_vrles']) == len(keep) and all(x is vr[i] for x, i in zip(a['refined_vrles'], keep))
+            and len(a['refrags']) == len(keep) and all(x is rf[i] for x, i in zip(a['refrags'], keep)))
+
+
+import itertools as _it
+_INDEX_SETS = [set(c) for r in range(0, 4) for c in _it.combinations(range(3), r)]
+contract(RX + 'ResultsSummary.remove', props=['C13'],
+         params=dict(indexes=T.enum(*_INDEX_SETS), add_dot_star=T.const(False)), self_view=_summary_view,
+         spec_env=dict(ENV, removed_ok=removed_ok), result=T.opaque,
+         ensures=[('removes-exactly-those-indexes-from-all-three-lists', 'removed_ok(self, indexes)')])
